@@ -99,6 +99,22 @@ def check_history(ctx, model, nptdms, data, ops, lens, stats):
     return dis, vio
 
 
+def scaled_do(ch, op):
+    try:
+        if op[0] == "I":
+            v = ch[op[1]]
+            return ("value", str(np.asarray(v).dtype), np.asarray(v).tobytes().hex())
+        if op[0] == "S":
+            v = ch[op[1]:op[2]]
+        elif op[0] == "U":
+            v = ch.read_data(op[1], op[2], scaled=False)
+        else:
+            v = ch.read_data(op[1], op[2])
+        return ("array", str(np.asarray(v).dtype), np.asarray(v).tobytes().hex())
+    except Exception as ex:  # noqa
+        return ("error", type(ex).__name__)
+
+
 def scaled_histories(ctx, model, nptdms, stats):
     """Histories on channels that carry a scaling, mixing scaled reads (index, slice, read_data) with raw reads
     (read_data(scaled=False)): what an earlier operation cached (scaled chunks) must not leak into a later raw read, and vice
@@ -129,28 +145,14 @@ def scaled_histories(ctx, model, nptdms, stats):
                 off = rnd.randint(0, n)
                 ops.append((kind, off, rnd.choice([None, 1, 2, 3, n])))
 
-        def do(ch, op):
-            try:
-                if op[0] == "I":
-                    v = ch[op[1]]
-                    return ("value", str(np.asarray(v).dtype), np.asarray(v).tobytes().hex())
-                if op[0] == "S":
-                    v = ch[op[1]:op[2]]
-                elif op[0] == "U":
-                    v = ch.read_data(op[1], op[2], scaled=False)
-                else:
-                    v = ch.read_data(op[1], op[2])
-                return ("array", str(np.asarray(v).dtype), np.asarray(v).tobytes().hex())
-            except Exception as ex:  # noqa
-                return ("error", type(ex).__name__)
         stats["scaled_histories"] += 1
         with nptdms.TdmsFile.open(io.BytesIO(data)) as f:
             ch = f["g"]["c"]
             for k, op in enumerate(ops):
-                got = do(ch, op)
+                got = scaled_do(ch, op)
                 stats["ops"] += 1
                 with nptdms.TdmsFile.open(io.BytesIO(data)) as f2:
-                    exp = do(f2["g"]["c"], op)
+                    exp = scaled_do(f2["g"]["c"], op)
                 if got != exp:
                     out.append(Violation("scaled channel: op %d %r after %r differs from the same op on a freshly opened file (got %s %s, fresh %s %s)" % (
                         k, op, ops[:k], got[0], got[1], exp[0], exp[1]), dict(kind="scaled-history", file=data.hex(), ops=[list(o) for o in ops], at=k)))
@@ -276,7 +278,25 @@ def replay(ctx, path):
     return 1 if v else 0
 
 
+def corpus_scaled(ctx, entry):
+    rp = entry["replay"]
+    nptdms = ctx.nptdms()
+    data = bytes.fromhex(rp["file"])
+    ops = [tuple(o) for o in rp["ops"]]
+    with nptdms.TdmsFile.open(io.BytesIO(data)) as f:
+        ch = f["g"]["c"]
+        for k, op in enumerate(ops):
+            got = scaled_do(ch, op)
+            with nptdms.TdmsFile.open(io.BytesIO(data)) as f2:
+                exp = scaled_do(f2["g"]["c"], op)
+            if got != exp:
+                return [], [Violation("corpus: scaled channel: op %d %r differs from the same op on a freshly opened file" % (k, op), rp)]
+    return [], []
+
+
 def corpus(ctx, entry):
+    if entry["replay"].get("kind") == "scaled-history":
+        return corpus_scaled(ctx, entry)
     rp = entry["replay"]
     data = bytes.fromhex(rp["file"])
     nptdms = ctx.nptdms()
